@@ -269,6 +269,21 @@ fn enc_load() {
         if l.inner.c.position() != ccn * cts() + got {
             return Some(format!("inner stream at {}, expected {}", l.inner.c.position(), ccn * cts() + got));
         }
+        // independent view of the format: chunk `ccn` of a stream made by the real writer is an
+        // AES-256-GCM message under nonce = archive nonce || BE32(ccn)
+        {
+            use aes_gcm::{aead::Aead, Aes256Gcm, KeyInit as _};
+            let plain = plain_of((ccn + 1) * ch());
+            let s = encrypt_stream(&plain);
+            let at = (ccn * cts()) as usize;
+            let mut nonce = [0u8; 12];
+            nonce[..8].copy_from_slice(&NONCE);
+            nonce[8..].copy_from_slice(&(ccn as u32).to_be_bytes());
+            match Aes256Gcm::new_from_slice(&KEY).unwrap().decrypt((&nonce).into(), &s[at..at + cts() as usize]) {
+                Ok(p) if p[..] == plain[(ccn * ch()) as usize..] => {}
+                _ => return Some(format!("chunk {ccn} written by the library does not authenticate as AES-256-GCM under nonce = archive nonce || BE32({ccn})")),
+            }
+        }
         None
     }));
     report(r);
